@@ -29,7 +29,7 @@ static COUNTER: AtomicU64 = AtomicU64::new(0);
 pub const SIG_NESTED_LIST: &str = "normalize-exception:list-of-lists-of-objects";
 pub const SIG_POINTER_ARGS: &str = "missing-data:client-pointer-selected-with-arguments";
 pub const SIG_EMPTY_LINKED: &str = "missing-data:linked-field-without-server-selections";
-pub const SIG_ESCAPE_C12: &str = "missing-data:escape-sequence-in-string-argument(C12)";
+pub const SIG_DEFAULT_VALUE: &str = "missing-data:client-field-variable-default-value-not-applied-when-reading";
 
 thread_local! {
     static SESSION: RefCell<Option<NodeSession>> = const { RefCell::new(None) };
@@ -104,6 +104,11 @@ pub fn judge(ep: &EntrypointCase, response: &Value, variables: &Value) -> Result
     }
 }
 
+/// One program in five is run over the whole domain (recorded root causes tolerated, not excluded).
+fn exclude_known(s: &C10Spec) -> bool {
+    vcore::hash_of(&s.spec.tape) % 5 != 0
+}
+
 fn rotate(tape: &[u16], k: usize) -> Vec<u16> {
     if tape.is_empty() || k == 0 {
         return tape.to_vec();
@@ -125,16 +130,10 @@ pub struct C10Spec {
 }
 
 pub fn c10_strategy() -> impl Strategy<Value = C10Spec> {
-    (cases::case_strategy(), prop::collection::vec(any::<u16>(), 0..160)).prop_map(|(spec, rtape)| C10Spec { spec, rtape })
-}
-
-fn exclusions(report: &Report) -> Exclusions {
-    Exclusions {
-        // escape sequences in string arguments: the compiler's key and the runtime's differ (C12
-        // `disagree:escape-sequence`), so the normalizer misses the field: excluded while listed
-        no_odd_strings: report.is_known(SIG_ESCAPE_C12),
-        ..Exclusions::default()
-    }
+    // tapes shorter than ~150 cells are used up by the schema builder and yield projects without
+    // client fields, which have no operation to check
+    (prop::collection::vec(any::<u16>(), 150..520), any::<u16>(), prop::collection::vec(any::<u16>(), 0..160))
+        .prop_map(|(tape, variant, rtape)| C10Spec { spec: CaseSpec { tape, variant, mtape: vec![] }, rtape })
 }
 
 /// The case a spec stands for; config variations are irrelevant to C10 and switched off.
@@ -155,11 +154,6 @@ fn case_of(s: &C10Spec, ex: &Exclusions) -> cases::Case {
     cases::Case { kind: cases::Kind::Valid, tier, project, rendered, mutation: None, note: String::new() }
 }
 
-fn sources_have_backslash(files: &Rendered) -> bool {
-    files.files.iter().any(|(k, v)| k.starts_with("src/") && v.contains('\\'))
-}
-
-/// Attribute a failure to a recorded root cause where the program shows it.
 fn has_list_of_lists_of_objects(v: &Value) -> bool {
     match v {
         Value::Array(a) => a.iter().any(|x| matches!(x, Value::Array(inner) if inner.iter().any(|y| y.is_object() || y.is_array())) || has_list_of_lists_of_objects(x)),
@@ -180,6 +174,17 @@ fn has_linked_node_without_selections(nast: &Value) -> bool {
     })
 }
 
+/// A client field / pointer declares a variable with a default value.
+fn declares_variable_default(files: &Rendered) -> bool {
+    files.files.iter().any(|(k, v)| {
+        k.starts_with("src/")
+            && v.lines().any(|l| {
+                let t = l.trim_start();
+                (t.starts_with("field ") || t.starts_with("pointer ")) && t.split_once('(').is_some_and(|(_, rest)| rest.split(')').next().unwrap_or("").contains(" = "))
+            })
+    })
+}
+
 fn refine_signature(mut f: Fail, files: &Rendered, response: &Value, ep: &EntrypointCase) -> Fail {
     if f.signature.starts_with("runtime-exception:normalize:Error: Unexpected missing __typename") && has_list_of_lists_of_objects(response) {
         f.signature = SIG_NESTED_LIST.into();
@@ -193,8 +198,9 @@ fn refine_signature(mut f: Fail, files: &Rendered, response: &Value, ep: &Entryp
         f.signature = SIG_POINTER_ARGS.into();
         return f;
     }
-    if f.signature.starts_with("missing-data:") && sources_have_backslash(files) {
-        f.signature = SIG_ESCAPE_C12.into();
+    if f.signature.starts_with("missing-data:") && reader_stats(&ep.reader_ast).resolvers_omitting_a_variable > 0 && declares_variable_default(files) {
+        f.signature = SIG_DEFAULT_VALUE.into();
+        return f;
     }
     f
 }
@@ -213,7 +219,8 @@ pub struct ProgramResult {
 }
 
 /// All entrypoints of one program, `responses` responses each.
-pub fn run_program(files: &Rendered, declared: &[String], rtape: &[u16], responses: usize, report: &Report) -> Result<ProgramResult, String> {
+pub fn run_program(files: &Rendered, declared: &[String], rtape: &[u16], responses: usize, report: &Report, exclude_known: bool) -> Result<ProgramResult, String> {
+    let known = |sig: &str| exclude_known && report.is_known(sig);
     let compiled = compile_files(files)?;
     let mut res = ProgramResult { entrypoints: 0, reads: 0, nontrivial: false, labels: vec![], failure: None };
     for path in compiled.set.paths_named("entrypoint.ts") {
@@ -237,11 +244,15 @@ pub fn run_program(files: &Rendered, declared: &[String], rtape: &[u16], respons
         };
         res.entrypoints += 1;
         let rs = reader_stats(&ep.reader_ast);
-        if rs.pointers_with_arguments > 0 && report.is_known(SIG_POINTER_ARGS) {
+        if rs.pointers_with_arguments > 0 && known(SIG_POINTER_ARGS) {
             report.excluded(SIG_POINTER_ARGS);
             continue;
         }
-        if has_linked_node_without_selections(&ep.normalization) && report.is_known(SIG_EMPTY_LINKED) {
+        if rs.resolvers_omitting_a_variable > 0 && declares_variable_default(files) && known(SIG_DEFAULT_VALUE) {
+            report.excluded(SIG_DEFAULT_VALUE);
+            continue;
+        }
+        if has_linked_node_without_selections(&ep.normalization) && known(SIG_EMPTY_LINKED) {
             report.excluded(SIG_EMPTY_LINKED);
             continue;
         }
@@ -257,7 +268,7 @@ pub fn run_program(files: &Rendered, declared: &[String], rtape: &[u16], respons
                     break;
                 }
             };
-            if stats.nested_object_lists > 0 && report.is_known(SIG_NESTED_LIST) {
+            if stats.nested_object_lists > 0 && known(SIG_NESTED_LIST) {
                 // recorded finding: excluded so that the search continues behind it
                 report.excluded(SIG_NESTED_LIST);
                 break;
@@ -359,10 +370,27 @@ pub fn run(args: &Args) {
     vcore::set_max_shrink_iters(300);
     with_session(|s| crate::node::self_test(s));
 
+    if let Some(i) = args.rest.iter().position(|a| a == "--probe") {
+        // development aid: compile the files of a JSON document, generate one response per declared
+        // entrypoint and print the replay input with the verdict
+        let doc = vcore::read_replay(std::path::Path::new(&args.rest[i + 1]));
+        let files = cases::load_case_files(&doc);
+        let declared: Vec<String> = doc["entrypoints"].as_array().map(|a| a.iter().filter_map(|x| x.as_str().map(|s| s.to_string())).collect()).unwrap_or_default();
+        let r = run_program(&files, &declared, &(0..64u64).map(|i| (args.seed.wrapping_mul(40503).wrapping_add(i.wrapping_mul(25173)) % 65536) as u16).collect::<Vec<u16>>(), 1, &report, false);
+        match r {
+            Err(e) => println!("PROBE: {e}"),
+            Ok(r) => match r.failure {
+                Some((f, input)) => println!("PROBE-FAIL {}\n{}\nINPUT {}", f.signature, f.message, input),
+                None => println!("PROBE-OK entrypoints={} reads={}", r.entrypoints, r.reads),
+            },
+        }
+        std::process::exit(0);
+    }
     if let Some(path) = &args.replay {
         let v = vcore::read_replay(path);
         report.case(Some(&v["input"].to_string()), &["replay"]);
         report.case(Some("replay-marker"), &[]);
+        report.sample("replay", 1, || v["input"].clone());
         if let Err(f) = run_input(&v["input"]) {
             report.violation("replay", &f, v["input"].clone());
         }
@@ -370,18 +398,12 @@ pub fn run(args: &Args) {
     }
     report.run_regressions(run_input);
 
-    let ex = exclusions(&report);
-    if ex.no_odd_strings {
-        report.label("exclusion-active:no-odd-strings");
-    }
+    let ex = Exclusions::default();
     let n = args.tier.pick(400u32, 20_000u32);
     let responses = args.tier.pick(3usize, 5usize);
     let res = vcore::run_prop_parallel(&report, "programs", n, vcore::num_workers(), c10_strategy, |s| {
         let case = case_of(s, &ex);
-        if ex.no_odd_strings && (s.spec.variant as usize % 5) == 3 {
-            report.excluded(SIG_ESCAPE_C12);
-        }
-        match run_program(&case.rendered, &declared_entrypoints(&case.project), &s.rtape, responses, &report) {
+        match run_program(&case.rendered, &declared_entrypoints(&case.project), &s.rtape, responses, &report, exclude_known(&s)) {
             Err(reason) => {
                 report.case::<str>(None, &[&reason, &format!("tier:{}", case.tier)]);
                 Ok(())
@@ -390,6 +412,7 @@ pub fn run(args: &Args) {
                 let key = format!("{:?}", case.rendered.files);
                 let mut labels: Vec<String> = r.labels.clone();
                 labels.push(format!("tier:{}", case.tier));
+                labels.push(if exclude_known(s) { "pass:behind(recorded root causes excluded)".to_string() } else { "pass:raw(whole domain)".to_string() });
                 if r.entrypoints == 0 {
                     labels.push("no-usable-entrypoint".into());
                 }
@@ -407,7 +430,7 @@ pub fn run(args: &Args) {
     });
     if let Some((s, fail)) = res {
         let case = case_of(&s, &ex);
-        let input = match run_program(&case.rendered, &declared_entrypoints(&case.project), &s.rtape, responses, &report) {
+        let input = match run_program(&case.rendered, &declared_entrypoints(&case.project), &s.rtape, responses, &report, exclude_known(&s)) {
             Ok(ProgramResult { failure: Some((_, input)), .. }) => input,
             _ => json!({"kind": "c10", "files": case.rendered.files}),
         };
